@@ -177,7 +177,15 @@ type simStore struct {
 	fired     int
 	name      string
 	latency   bool
-	delivered int // failures returned to the caller
+	delivered int  // failures returned to the caller
+	dead      bool // every GetChunk fails
+	tick      *int // optional shared event counter
+	failLog   []failRec
+}
+
+type failRec struct {
+	id   desync.ChunkID
+	tick int
 }
 
 func newSimStore(c *fw.Case, name string) *simStore {
@@ -208,6 +216,9 @@ func (s *simStore) enter(op string, id desync.ChunkID) (fail string) {
 			fail = f.kind
 		}
 	}
+	if s.dead && op == "get" {
+		fail = "error"
+	}
 	s.mu.Unlock()
 	if fail == "delay" {
 		s.c.Fault("store-latency")
@@ -220,6 +231,10 @@ func (s *simStore) enter(op string, id desync.ChunkID) (fail string) {
 		s.c.Fault("store-" + op + "-" + fail)
 		s.mu.Lock()
 		s.delivered++
+		if s.tick != nil {
+			*s.tick++
+			s.failLog = append(s.failLog, failRec{id, *s.tick})
+		}
 		s.mu.Unlock()
 	}
 	return fail
